@@ -678,9 +678,11 @@ def empty(n, dtype=None):
 
 def count_nonzero(x):
     acc = 0
-    for v in _items(x):
-        if isinstance(v, str):
-            raise NotImplementedError("count_nonzero on strings")
+    xs = _items(x)
+    if _bi.any(isinstance(v, str) for v in xs):
+        # numpy converts the whole list to a string array: every non-empty string ('False', '0', 'marked') is non-zero
+        return _bi.sum(1 for v in xs if not (isinstance(v, str) and v == ""))
+    for v in xs:
         b = v if isinstance(v, (bool, SB)) else _sop(v, 0, '!=')
         acc = _sop(acc, b, '+')
     return acc
